@@ -42,5 +42,46 @@ __CPROVER_ensures(/*slice-i-along-the-first-dimension*/ (data->extent.rank > 0 &
                    (ghost_k < data->extent.rank ==> (gh_view_offset_k == (ghost_k == 0 ? position_indices->data[idx] : 0) && gh_view_count_k == (ghost_k == 0 ? 1 : data->extent.dims[ghost_k])))))
 NIX_CANARY(mtag_indexed_slice) __CPROVER_assigns(nix_exc, gh_views, gh_view_count_rank, gh_view_offset_rank, gh_view_count_k, gh_view_offset_k, gh_view_extent_dims, gh_pushed)
 ;
+
+/* region D: featureData(MultiTag, indices, feature) - the dispatch on the link type and the index gate
+   "an index beyond the number of positions raises an out-of-bounds error ... tagged features are cut like references" */
+typedef struct { DataArray positions; } MultiTag;
+#define TMP_DataArray(v) ((DataArray[1]){(v)})
+static inline DataArray MultiTag_positions(const MultiTag *t)
+{ return t->positions; }
+extern size_t gh_max_idx; extern int gh_mtagged_calls;
+/* std::max_element on a range of ndsize_t: ASSUMED contract.  For an empty range it returns last (dereferencing it is undefined behaviour - checked at the use). */
+size_t std_max_element_idx(const ndsize_t *first, size_t n)
+__CPROVER_requires(n <= VEC_MAX && __CPROVER_r_ok(first, (n ? n : 1) * sizeof(ndsize_t)))
+__CPROVER_ensures(n == 0 ? __CPROVER_return_value == 0 : __CPROVER_return_value < n)
+__CPROVER_ensures((ghost_k < n) ==> first[ghost_k] <= first[__CPROVER_return_value])
+__CPROVER_ensures(gh_max_idx == __CPROVER_return_value)
+__CPROVER_assigns(gh_max_idx)
+;
+static inline ndsize_t *max_element(ndsize_t *first, ndsize_t *last)
+{ return first + std_max_element_idx(first, (size_t)(last - first)); }
+static inline vec_DataView taggedData_mtag_counted(const MultiTag *tag, vec_ndsize *position_indices, const DataArray *array, RangeMatch match)
+{ gh_mtagged_calls++; vec_DataView v; v.n = 0; return v; }
+#define POS_COUNT (tag->positions.extent.dims[0])
+NIX_THROWS vec_DataView mtag_feature_gate(const MultiTag *tag, vec_ndsize *position_indices, const Feature *feature, const DataArray *data, RangeMatch match, vec_DataView views)
+__CPROVER_requires(__CPROVER_is_fresh(tag, sizeof(MultiTag)) && NDV_FRESH(tag->positions.extent) && tag->positions.extent.rank >= 1 && __CPROVER_is_fresh(feature, sizeof(Feature)) && __CPROVER_is_fresh(data, sizeof(DataArray)))
+__CPROVER_requires(__CPROVER_is_fresh(position_indices, sizeof(vec_ndsize)) && position_indices->n <= VEC_MAX && __CPROVER_is_fresh(position_indices->data, position_indices->n * sizeof(ndsize_t)))
+__CPROVER_requires(/*an empty index list only arises when the tag has no positions (the caller fills an empty list with 0..count-1)*/ position_indices->n == 0 ==> POS_COUNT == 0)
+__CPROVER_requires(nix_exc == EXC_NONE && gh_mtagged_calls == 0 && (feature->link == LinkType_Tagged || feature->link == LinkType_Untagged || feature->link == LinkType_Indexed))
+__CPROVER_ensures(/*tagged-feature-is-cut-like-a-reference*/ feature->link == LinkType_Tagged ==> gh_mtagged_calls == 1)
+__CPROVER_ensures(/*untagged-and-indexed-are-not-cut*/ feature->link != LinkType_Tagged ==> gh_mtagged_calls == 0)
+__CPROVER_ensures(/*index-beyond-the-number-of-positions-throws*/ (feature->link != LinkType_Tagged && ghost_k < position_indices->n && position_indices->data[ghost_k] >= POS_COUNT) ==> nix_exc == EXC_OutOfBounds)
+__CPROVER_ensures(/*valid-indices-are-accepted*/ (feature->link != LinkType_Tagged && position_indices->n > 0 && position_indices->data[gh_max_idx] < POS_COUNT) ==> nix_exc == EXC_NONE)
+__CPROVER_ensures(/*no-other-exception*/ nix_exc == EXC_NONE || nix_exc == EXC_OutOfBounds)
+NIX_CANARY(mtag_feature_gate) __CPROVER_assigns(nix_exc, gh_mtagged_calls, gh_max_idx)
+;
+/* region C: the untagged branch - "untagged features are returned whole" (one view per requested position: offset 0, count = extent) */
+NIX_THROWS void mtag_untagged_whole(const DataArray *data, vec_DataView *views)
+__CPROVER_requires(__CPROVER_is_fresh(data, sizeof(DataArray)) && NDV_FRESH(data->extent) && ND_CASE(&data->extent) && __CPROVER_is_fresh(views, sizeof(vec_DataView)))
+__CPROVER_requires(nix_exc == EXC_NONE && gh_views == 0 && gh_pushed == 0)
+__CPROVER_ensures(/*whole-array-returned*/ nix_exc == EXC_NONE && gh_views == 1 && gh_pushed == 1 && gh_view_count_rank == data->extent.rank && gh_view_offset_rank == data->extent.rank &&
+                  (ghost_k < data->extent.rank ==> (gh_view_offset_k == 0 && gh_view_count_k == data->extent.dims[ghost_k])))
+NIX_CANARY(mtag_untagged_whole) __CPROVER_assigns(nix_exc, gh_views, gh_view_count_rank, gh_view_offset_rank, gh_view_count_k, gh_view_offset_k, gh_view_extent_dims, gh_pushed)
+;
 #undef RV
 #endif
